@@ -40,6 +40,9 @@ func NewReceiver(ctx context.Context, opts *Options, cfg *Config) (*Receiver, er
 	return r, nil
 }
 
+// maxUploadBufSize is the largest read buffer allocated from the Content-Length declared by the client.
+const maxUploadBufSize = 1 << 24
+
 // SegmentHandlerFunc is a handler for receiving segments, but will also accept MPDs (extension .mpd).
 func (r *Receiver) SegmentHandlerFunc(w http.ResponseWriter, req *http.Request) {
 	// Extract the path and filename from URL
@@ -294,7 +297,9 @@ func (r *Receiver) SegmentHandlerFunc(w http.ResponseWriter, req *http.Request) 
 	log.Debug("Receiving file", "url", path, "contentLength", contentLength, "totSize", rsd.totSize)
 	var buf []byte
 	if contentLength > 0 {
-		buf = make([]byte, contentLength)
+		// The buffer is only where the body is read to: it is bounded, whatever length the client declares
+		// (the chunk parser makes it larger when a box needs that).
+		buf = make([]byte, min(contentLength, maxUploadBufSize))
 	} else {
 		buf = make([]byte, 1024)
 	}
